@@ -258,6 +258,11 @@ def judge_cell(sh, tag, a, b, sa, sb, ca, cb, res):
             if op in ("<", "<=", ">", ">="):
                 if not threw and got != I(0):
                     bad("wrong", I(0), "with a NaN involved expected 0 or an error")
+            elif op in ("min", "max") and res[6] == MARK and not threw:
+                # min / max "agree with that order": where the interpreter's own three-way comparison of the two
+                # operands refuses to answer (raises), min / max cannot pick one of them silently
+                sh.count("nan-consistency:checked")
+                bad("answers-where-order-raises", "error", "`%s` raises on these operands, so %s must raise too instead of silently preferring one" % (op_text("<=>", sa, sb)[:80], op))
             else:
                 sh.count("unjudged:%s" % op)
             continue
